@@ -50,9 +50,11 @@ func NewUnion(keys ...any) (u Union) {
 	return
 }
 
-func (f Union) hasN(n int64) bool {
+// hasN returns true if the union includes the index n of a collection with
+// size elements either directly or counted from the end (negative).
+func (f Union) hasN(n int64, size int) bool {
 	for _, x := range f {
-		if ix, ok := x.(int64); ok && ix == n {
+		if ix, ok := x.(int64); ok && (ix == n || ix == n-int64(size)) {
 			return true
 		}
 	}
@@ -74,7 +76,7 @@ func (f Union) removeOne(value any) (out any, changed bool) {
 	case []any:
 		ns := make([]any, 0, len(tv))
 		for i, v := range tv {
-			if !changed && f.hasN(int64(i)) {
+			if !changed && f.hasN(int64(i), len(tv)) {
 				changed = true
 			} else {
 				ns = append(ns, v)
@@ -101,7 +103,7 @@ func (f Union) removeOne(value any) (out any, changed bool) {
 	case gen.Array:
 		ns := make(gen.Array, 0, len(tv))
 		for i, v := range tv {
-			if !changed && f.hasN(int64(i)) {
+			if !changed && f.hasN(int64(i), len(tv)) {
 				changed = true
 			} else {
 				ns = append(ns, v)
@@ -128,7 +130,7 @@ func (f Union) removeOne(value any) (out any, changed bool) {
 	case RemovableIndexed:
 		size := tv.Size()
 		for i := 0; i < size; i++ {
-			if f.hasN(int64(i)) {
+			if f.hasN(int64(i), size) {
 				tv.RemoveValueAtIndex(i)
 				changed = true
 				break
@@ -155,7 +157,7 @@ func (f Union) removeOne(value any) (out any, changed bool) {
 			cnt := rv.Len()
 			nc := 0
 			for i := 0; i < cnt; i++ {
-				if !changed && f.hasN(int64(i)) {
+				if !changed && f.hasN(int64(i), cnt) {
 					changed = true
 				} else {
 					nc++
@@ -166,7 +168,7 @@ func (f Union) removeOne(value any) (out any, changed bool) {
 				ni := 0
 				ns := reflect.MakeSlice(rv.Type(), nc, nc)
 				for i := 0; i < cnt; i++ {
-					if !changed && f.hasN(int64(i)) {
+					if !changed && f.hasN(int64(i), cnt) {
 						changed = true
 					} else {
 						ns.Index(ni).Set(rv.Index(i))
@@ -198,7 +200,7 @@ func (f Union) remove(value any) (out any, changed bool) {
 	case []any:
 		ns := make([]any, 0, len(tv))
 		for i, v := range tv {
-			if f.hasN(int64(i)) {
+			if f.hasN(int64(i), len(tv)) {
 				changed = true
 			} else {
 				ns = append(ns, v)
@@ -217,7 +219,7 @@ func (f Union) remove(value any) (out any, changed bool) {
 	case gen.Array:
 		ns := make(gen.Array, 0, len(tv))
 		for i, v := range tv {
-			if f.hasN(int64(i)) {
+			if f.hasN(int64(i), len(tv)) {
 				changed = true
 			} else {
 				ns = append(ns, v)
@@ -236,7 +238,7 @@ func (f Union) remove(value any) (out any, changed bool) {
 	case RemovableIndexed:
 		size := tv.Size()
 		for i := (size - 1); i >= 0; i-- {
-			if f.hasN(int64(i)) {
+			if f.hasN(int64(i), size) {
 				tv.RemoveValueAtIndex(i)
 				changed = true
 			}
@@ -260,7 +262,7 @@ func (f Union) remove(value any) (out any, changed bool) {
 			cnt := rv.Len()
 			nc := 0
 			for i := 0; i < cnt; i++ {
-				if f.hasN(int64(i)) {
+				if f.hasN(int64(i), cnt) {
 					changed = true
 				} else {
 					nc++
@@ -271,7 +273,7 @@ func (f Union) remove(value any) (out any, changed bool) {
 				ni := 0
 				ns := reflect.MakeSlice(rv.Type(), nc, nc)
 				for i := 0; i < cnt; i++ {
-					if f.hasN(int64(i)) {
+					if f.hasN(int64(i), cnt) {
 						changed = true
 					} else {
 						ns.Index(ni).Set(rv.Index(i))
